@@ -26,7 +26,7 @@ def main():
         t0 = time.time()
         obs, stats = verify_contract(repo, c, v, policy=policy, concrete=concrete, max_paths=200000)
         t1 = time.time()
-        res = [vc.discharge(o, 10000) for o in obs]
+        res = [vc.discharge(o, 10000, prefer_ematch=concrete is None and getattr(c, 'prefer_ematch', False)) for o in obs]
         t2 = time.time()
         nd = sum(r["status"] == "discharged" for r in res)
         print(f"[{v}] paths={stats['paths']} exits={stats['exits']} obligations={len(obs)} discharged={nd} explore={t1-t0:.2f}s solve={t2-t1:.2f}s")
